@@ -39,7 +39,7 @@ def run(ck):
     schema = tlbcommon.schema_file(ck)
     traces = cellcommon.drive_shards(ck, "C04")
     def val(tp):
-        return ck.validate_events("Tlb_Trace", "trace/Tlb_Trace.cfg", tp, timeout=3000, name="trace_" + os.path.basename(tp)[6:8], heap_gb=6,
+        return ck.validate_events("Tlb_Trace", "trace/Tlb_Trace.cfg", tp, timeout=3000, name="trace_" + os.path.basename(tp)[6:8], heap_gb=3,
                                   extra_files={"schema.json": schema})
     kinds, distinct = {}, set()
     for tp, (res, rejected) in zip(traces, vlib.parallel(val, traces, n=8)):
